@@ -333,7 +333,7 @@ func c04GetlineCases(visit func(desc string, e *x.E)) {
 }
 
 // c04GroupedThenIncr: (operand) ++y and (operand) --y for every kind of primary operand.
-func c04GroupedThenIncr(visit func(desc string, e *x.E)) {
+func c04GroupedThenIncr(visit func(desc string, e *x.E, raw string)) {
 	prim := map[string]*x.E{
 		"var": x.Var("x"), "index": x.Index("B", x.Num(1)), "index2": x.Index("B", x.Var("x"), x.Num(2)), "field": x.Field(x.Num(1)), "fieldvar": x.Field(x.Var("x")),
 		"num": x.Num(3), "str": x.Str("s"), "call": x.Call("length", x.Var("x")), "user": x.User("f", x.Var("x")), "group": x.Group(x.Index("B", x.Num(1))),
@@ -341,8 +341,9 @@ func c04GroupedThenIncr(visit func(desc string, e *x.E)) {
 	for pn, p := range prim {
 		for _, op := range []string{"++", "--"} {
 			for tn, tgt := range map[string]*x.E{"var": x.Var("y"), "index": x.Index("B", x.Var("z")), "field": x.Field(x.Num(2))} {
-				visit("grouped-"+pn+op+"pre-"+tn, x.Bin("cat", x.Group(p), x.Incr(op, true, tgt)))
-				visit("grouped-"+pn+op+"pre-"+tn+"-then", x.Bin("cat", x.Bin("cat", x.Group(p), x.Incr(op, true, tgt)), x.Var("w")))
+				raw := x.Min(x.Group(p), x.Ctx{}) + " " + op + x.Min(tgt, x.Ctx{})
+				visit("grouped-"+pn+op+"pre-"+tn, x.Bin("cat", x.Group(p), x.Incr(op, true, tgt)), raw)
+				visit("grouped-"+pn+op+"pre-"+tn+"-then", x.Bin("cat", x.Bin("cat", x.Group(p), x.Incr(op, true, tgt)), x.Var("w")), raw+" w")
 			}
 		}
 	}
@@ -399,11 +400,28 @@ func init() {
 			})
 			// an operand written in parentheses is not an lvalue: a following ++ / -- belongs to the next
 			// operand of the concatenation (grouping yields a value, not a variable)
-			c04GroupedThenIncr(func(desc string, e *x.E) {
+			c04GroupedThenIncr(func(desc string, e *x.E, raw string) {
 				for _, cxn := range []string{"stmt", "if", "pattern", "subscript", "arg", "print"} {
 					if c.Mine(idx) {
 						c04Check(c, desc, e, cxn)
 						c.Cover("grouped_then_incr", desc+"|"+cxn)
+						// the spelling without the parentheses around the increment, as a programmer writes it
+						src, want := c04Source(cxn, raw, x.Dump(e))
+						cs := c04Case{Desc: "raw:" + desc, Context: cxn, Min: src, Want: want}
+						c.Begin(cs)
+						c.Eval(1)
+						got, err, pm := c04Parsed(cxn, src)
+						switch {
+						case pm != "":
+							c.Violation("parse-panic", "", "parser panicked on "+core.Q(raw)+": "+run.PanicSite(pm), want, pm, cs)
+						case err != nil:
+							c.Violation("min-rejected", "grouped-then-incr", fmt.Sprintf("[%s] %s is rejected (%v)", cxn, core.Q(raw), err), want, err.Error(), cs)
+						case got != want:
+							c.Violation("grouping", "grouped-then-incr", fmt.Sprintf("[%s] %s: the increment was attached to the parenthesised operand", cxn, core.Q(raw)), want, got, cs)
+						default:
+							c.NonTrivial("raw|" + cxn + "|" + raw)
+							c.Count("grouped_then_incr_raw", 1)
+						}
 					}
 					idx++
 				}
